@@ -44,13 +44,14 @@ let run_dirty () =
   let (d, _) = RuleDecision.check_regex RuleDecision.dirty_vst p f in
   out_decision (Some d)
 
-(* frag: pattern:str (code points) -> <in_fragment without u> <in_fragment with u> <recognises without u> <recognises with u>  (0/1 each)
+(* frag: pattern:str (code points) -> <in_fragment without u> <in_fragment with u> <recognises without u> <recognises with u> <in_grammar without u> <in_grammar with u>  (0/1 each)
    (the recogniser of the grammar fragment, Regex/FragParser.v) *)
 let run_frag () =
   let s = read_str () in
   (* the units the validator reads: code points with u, UTF-16 code units without *)
   let sn = Reader.visible_units s false and su = Reader.visible_units s true in
   out_bool (FragParser.in_fragment false sn); out_bool (FragParser.in_fragment true su);
-  out_bool (FragParser.recognises false sn); out_bool (FragParser.recognises true su)
+  out_bool (FragParser.recognises false sn); out_bool (FragParser.recognises true su);
+  out_bool (FragParser.in_grammar false sn); out_bool (FragParser.in_grammar true su)
 
 let () = main [("seq", run_seq); ("rule", run_rule); ("flags", run_flags); ("dirty", run_dirty); ("frag", run_frag)]
